@@ -91,7 +91,16 @@ mod imp {
     pub fn any_u8() -> u8 { next() as u8 }
     pub fn any_u16() -> u16 { next() as u16 }
     pub fn any_usize() -> usize { next() as usize }
-    pub fn assume(c: bool) { if !c { std::println!("REPLAY-INVALID assumption violated"); std::process::exit(3); } }
+    pub fn assume(c: bool) {
+        if !c {
+            // a check that failed BEFORE this point failed on a valid prefix of the execution (the vector of a
+            // counterexample ends at the failing assertion; later draws are padded with zeros)
+            let f = failed();
+            if !f.is_empty() { std::println!("REPRODUCED checks={:?}", f); }
+            std::println!("REPLAY-INVALID assumption violated");
+            std::process::exit(3);
+        }
+    }
     pub fn check(c: bool, id: u32) { if !c { FAILED.with(|f| f.borrow_mut().push(id)); } }
     pub fn reach(_id: u32) {}
     pub fn raise() -> ! { std::panic::panic_any(Injected) }
